@@ -10,7 +10,7 @@ from core import InfraError, hexf, unhex
 _exe = {}
 
 # ---- S block layout (harness/thdm.cpp block_S) --------------------------------------
-S_LEN, A_LEN, T_LEN, Y_LEN = 92, 4, 17, 216
+S_LEN, A_LEN, T_LEN, Y_LEN = 95, 4, 17, 216
 MHH0, MHH1, MAH0, MAH1, MHM0, MHM1, SBA, CBA, TB = range(9)
 LAM = slice(9, 16)
 M122, MW, MZ = 16, 17, 18
@@ -24,6 +24,7 @@ SM_CKM = slice(67, 85)
 SM_V, SM_MH = 85, 86
 ZETA = slice(87, 90)
 MVG, MVP = 90, 91
+SM_AEM, SM_AS, ALPHA_EM = 92, 93, 94
 YNAMES = ["yuh", "yuH", "yuA", "yuHp", "ydh", "ydH", "ydA", "ydHp", "ylh", "ylH", "ylA", "ylHp"]
 TYPES = {1: "I", 2: "II", 3: "X", 4: "Y", 5: "aligned", 6: "general"}
 
@@ -42,7 +43,7 @@ def exe():
     if "plain" not in _exe:
         _exe["plain"] = build.harness("thdm", "plain", ["thdm.cpp"])
         p = subprocess.run([_exe["plain"]], input="hello\n", stdout=subprocess.PIPE, text=True, timeout=60)
-        if "THDM-HARNESS 2 S92 A4 T17 Y216" not in p.stdout:
+        if "THDM-HARNESS 3 S95 A4 T17 Y216" not in p.stdout:
             raise InfraError("thdm harness: unexpected hello: %r" % p.stdout[:200])
     return _exe["plain"]
 
@@ -57,16 +58,47 @@ def mat_token(m):
     return ",".join(hexf(x) for x in m)
 
 
+SM_KEYS = ["mw", "mz", "aem", "ae0", "as", "mu0", "mu1", "mu2", "md0", "md1", "md2", "ml0", "ml1", "ml2"]
+# SM input alphabet: None = gm2calc::SM default, 1-2 alternates per parameter (mw < mz, mass ordering kept)
+SM_ALPHA = {
+    "mw": [None, 80.4335, 78.5], "mz": [None, 91.05, 93.0],
+    "aem": [None, 1.0 / 128.94579, 1.0 / 127.0], "as": [None, 0.1, 0.13],
+    "mu0": [None, 0.003], "mu1": [None, 1.4], "mu2": [None, 165.0, 180.0],
+    "md0": [None, 0.006], "md1": [None, 0.11], "md2": [None, 4.5],
+    "ml0": [None, 0.0006], "ml1": [None, 0.12], "ml2": [None, 1.9],
+    "mhsm": [None, 100.0, 150.0],
+}
+SM_DIMS = ["mw", "mz", "aem", "as", "mu0", "mu1", "mu2", "md0", "md1", "md2", "ml0", "ml1", "ml2", "mhsm"]
+SM_BASE = {k: None for k in SM_DIMS}
+# one complete alternate SM input set (every parameter differs from the default)
+SM_ALT = {"mw": 80.4335, "mz": 91.05, "aem": 1.0 / 128.94579, "as": 0.13, "mu0": 0.003, "mu1": 1.4, "mu2": 165.0,
+          "md0": 0.006, "md1": 0.11, "md2": 4.5, "ml0": 0.0006, "ml1": 0.12, "ml2": 1.9}
+
+
+def sm_from(a):
+    """SM override dict from an assignment that contains (some of) the SM_DIMS"""
+    return {k: a[k] for k in SM_KEYS if a.get(k) is not None}
+
+
 def case(basis, p, ytype=2, run=1, ckm=1, mhsm="-", z=(0.0, 0.0, 0.0),
-         D=(None, None, None), P=(None, None, None)):
-    """canonical, JSON-able case description"""
+         D=(None, None, None), P=(None, None, None), sm=None):
+    """canonical, JSON-able case description; sm: dict of SM input overrides (keys SM_KEYS)"""
+    if mhsm is None:
+        mhsm = "-"
     return {"basis": basis, "p": [float(x) for x in p], "ytype": int(ytype), "run": int(run),
             "ckm": int(ckm), "mhsm": mhsm if isinstance(mhsm, str) else hexf(mhsm),
-            "z": [float(x) for x in z], "D": list(D), "P": list(P)}
+            "z": [float(x) for x in z], "D": list(D), "P": list(P),
+            "sm": {k: float(v) for k, v in sorted((sm or {}).items())}}
+
+
+def sm_token(sm):
+    if not sm:
+        return "-"
+    return ",".join("%s=%s" % (k, hexf(sm[k])) for k in SM_KEYS if k in sm)
 
 
 def line(cid, c, ops):
-    return " ".join([str(cid), c["basis"], str(c["ytype"]), str(c["run"]), str(c["ckm"]), c["mhsm"]]
+    return " ".join([str(cid), c["basis"], str(c["ytype"]), str(c["run"]), str(c["ckm"]), c["mhsm"], sm_token(c.get("sm"))]
                     + [hexf(x) for x in c["p"]] + [hexf(x) for x in c["z"]]
                     + [mat_token(m) for m in c["D"]] + [mat_token(m) for m in c["P"]] + [ops])
 
@@ -125,6 +157,37 @@ def chunks(seq, n):
     return [seq[i:i + n] for i in range(0, len(seq), n)]
 
 
+def strided_chunks(seq, n):
+    """chunks of about n elements taken with a stride over the whole sequence, so that every chunk
+    (= one harness process) mixes all parts of a lattice, in particular different SM inputs"""
+    k = max(1, (len(seq) + n - 1) // n)
+    # prime stride: a periodic pattern in the sequence (e.g. SM input sets alternating with period 2 or 3)
+    # must not be in phase with the stride, or every chunk would see one phase only
+    while k > 1 and any(k % q == 0 for q in range(2, int(k ** 0.5) + 1)):
+        k += 1
+    return [seq[i::k] for i in range(k)]
+
+
+def history_mismatches(cases, ops, res):
+    """re-run the cases in reversed order in a fresh harness process and compare bitwise (hex text):
+    the result of a case must not depend on what was constructed before it in the same process.
+    returns list of (index, what)"""
+    rev = run_lines([line(i, c, ops) for i, c in enumerate(cases)][::-1])[::-1]
+    bad = []
+    for i, (a, b) in enumerate(zip(res, rev)):
+        if (a.exc or None) != (b.exc or None):
+            bad.append((i, "outcome %r vs %r" % (a.exc, b.exc)))
+        elif not a.exc:
+            for blk in sorted(a.raw):
+                if a.raw[blk] != b.raw.get(blk):
+                    va, vb = getattr(a, blk), getattr(b, blk)
+                    idx = [j for j in range(len(va)) if va[j].hex() != vb[j].hex()][:4] if len(va) == len(vb) else []
+                    bad.append((i, "block %s positions %s: %r (forward order) vs %r (reversed order)"
+                                % (blk, idx, [va[j] for j in idx], [vb[j] for j in idx])))
+                    break
+    return bad
+
+
 # ---- enumerators ----------------------------------------------------------------------
 def devprod(dims, base, alphabet, dmax):
     """Deviation-bounded product: all assignments that differ from `base` in at most dmax
@@ -161,15 +224,15 @@ def jarlskog(V):
     return (V[0][0] * V[1][1] * V[0][1].conjugate() * V[1][0].conjugate()).imag
 
 
-def sm_inputs(ckm=1):
-    """SM input values as the harness' SM object reports them (masses, v, CKM)"""
-    c = case("M", [125.0, 400.0, 420.0, 440.0, 0.999, 0.0, 0.0, 3.0, 40000.0], ckm=ckm)
+def sm_inputs(ckm=1, sm=None):
+    """SM input values as the harness' SM object reports them (masses, v, CKM) for an override set"""
+    c = case("M", [125.0, 400.0, 420.0, 440.0, 0.999, 0.0, 0.0, 3.0, 40000.0], ckm=ckm, sm=sm)
     r, = run_cases([c], "S")
     if r.exc:
         raise InfraError("sm_inputs: reference point threw %r" % (r.exc,))
     S = r.S
     return {"mw": S[SM_MW], "mz": S[SM_MZ], "mu": S[SM_MU], "md": S[SM_MD], "ml": S[SM_ML],
-            "v": S[SM_V], "mh": S[SM_MH], "ckm": cmat(S[SM_CKM])}
+            "v": S[SM_V], "mh": S[SM_MH], "ckm": cmat(S[SM_CKM]), "aem": S[SM_AEM], "as": S[SM_AS]}
 
 
 def pi_from_aligned(zeta, Delta, masses, tb, v):
